@@ -188,6 +188,10 @@ func (lalr *LALR1) CaclIncludeRelation(tr int) []Relation {
 		for Dot, sycheck := range r.RighPart {
 			if sy == sycheck && lalr.seqenceCanEpsilon(r.RighPart[Dot+1:]) {
 				for _, q := range lalr.fechStateNumber(index) {
+					// p' --beta--> p must hold, p being the state of transition tr
+					if end, ok := lalr.walkPath(q, r.RighPart[:Dot]); !ok || end != lalr.trans[tr].q {
+						continue
+					}
 					if to_index, err := lalr.fetchTransIndex(q, int(LeftSy.ID)); err == nil {
 						res = append(res, Relation{x: tr, y: to_index})
 					}
